@@ -12,7 +12,7 @@ from sa.props._lib_a import (inlined_func, const_int as const_int_, DEFER, Q, Ca
                              sub0, targets_values)
 
 PROPERTY = "C05"
-TECHNIQUE = "structural typestate/dominance on driver and cancel helpers; exhaustive state evaluation of __iter__"
+TECHNIQUE = "structural typestate/dominance on driver and cancel helpers; who-may-read ownership rule with guard facts for Deferred.result; exhaustive state evaluation of __iter__"
 EXPLANATION = (
     "Decides the driver-side clauses only. [structural] _inlineCallbacks (typestate (waiting[0], helper pending, fired) propagated over the CFG): "
     "the result Deferred fires at most once per run and nothing is resumed/registered after it; every exception of gen.send / "
@@ -24,6 +24,9 @@ EXPLANATION = (
     "_addCancelCallbackToDeferred installs that handler as the first errback, keeps the old callbacks and errbacks the error the handler "
     "traps; _cancellableInlineCallbacks wires deferred/status/canceller consistently. Deferred.__iter__/__await__: yields itself while "
     "paused or without result, re-reads the result after every yield, returns a value / raises a Failure. "
+    "Outcome ownership (outcome/read-only-when-idle): outside class Deferred and the module-level helpers referenced only from it, defer.py never reads another "
+    "Deferred's .result (attribute or getattr) unless the read is guarded by: receiver called, not paused, not _runningCallbacks - a yielded Deferred's outcome reaches "
+    "the generator through the callback registered on it, i.e. after its whole chain, never as an intermediate value. "
     "Included from C03: Deferred.cancel() forwards unconditionally from a called Deferred to the one it is chained to. "
     "Not decided (declined): that user generator code observes outcomes exactly as a synchronous call would (semantics of user code)."
 )
@@ -556,6 +559,24 @@ def _check_outcome_reads(ctx):
         if c.name == "Deferred":
             inside |= {id(x) for x in ast.walk(c)}
     ctx.need(inside, "class Deferred in defer.py")
+    # module-level helpers of the callback engine: every reference to the helper's name is inside class Deferred or inside another such helper
+    # (a piece of Deferred._runCallbacks moved into a function is still the engine, the owner of .result)
+    top = {st.name: st for st in mod.tree.body if isinstance(st, (ast.FunctionDef, ast.AsyncFunctionDef))}
+    refs = {}
+    for holder_name, holder in [(None, x) for x in mod.tree.body]:
+        for x in ast.walk(holder):
+            if isinstance(x, ast.Name) and isinstance(x.ctx, ast.Load) and x.id in top:
+                where = "engine" if id(x) in inside else (holder.name if isinstance(holder, (ast.FunctionDef, ast.AsyncFunctionDef)) else "<module>")
+                refs.setdefault(x.id, set()).add(where)
+    engine = set()
+    grew = True
+    while grew:
+        grew = False
+        for name, ws in refs.items():
+            if name not in engine and ws and all(w == "engine" or w in engine or w == name for w in ws) and any(w == "engine" or w in engine for w in ws):
+                engine.add(name); grew = True
+    for name in engine:
+        inside |= {id(x) for x in ast.walk(top[name])}
     nfun = nreads = 0
     for qual, fn in mod.functions():
         if id(fn) in inside:
